@@ -875,7 +875,7 @@ class Driver:
         names = [n for n, s in self.eff.items() if s["kind"] != "default"]
         timed = [n for n, s in self.eff.items() if s["kind"] == "timed"]
         pid = self.pid
-        total = rng.choice([30, 60, 120, 250])
+        total = rng.choice([30, 60, 120, 250]) if rng.random() > 0.004 else 3000
         late = rng.random() < 0.3
         if late:
             self.ev("clock-moves-between-engage-and-execute")
@@ -1311,7 +1311,7 @@ class AutoDriver:
             return self.apply(op)
 
         tm_arg = 0.0
-        for per in range(rng.choice([1, 2, 2, 3, 4])):
+        for per in range(rng.choice([1, 2, 2, 3, 4]) if rng.random() > 0.03 else rng.choice([9, 14])):
             if not do(["on_enable"]):
                 return ops
             n_it = rng.choice([5, 15, 40, 100, 200])
@@ -1405,7 +1405,14 @@ def run_shard(spec):
     for i in range(spec["n"]):
         uid = f"v{spec['seed']:x}x{i}"
         case = gen_case(rng, pid, uid)
+        if i % 400 == 399:
+            # the clock jumps ahead by hours (2^31 us, 2^32 us, ~2.8 h): later cases of the shard run at a large FPGA time
+            hs.stepTimingAsync([2 ** 31, 2 ** 32, 10 ** 10][(i // 400) % 3])
+            acc.ev("fpga-clock-jumped-ahead-by-hours")
+        import wpilib
+        t0_us = wpilib.RobotController.getFPGATime()
         d, ops = _run_one(case, acc)
+        case["t0_us"] = t0_us          # a replay starts at the same FPGA time (large clock values are part of the case)
         acc.evaluations += 1
         for k, n in d.events.items():
             acc.ev(k, n)
@@ -1445,6 +1452,11 @@ def replay(pid, case):
     acc = Acc()
     case = dict(case)
     case["pid"] = pid
+    if case.get("t0_us"):
+        import wpilib
+        behind = case["t0_us"] - wpilib.RobotController.getFPGATime()
+        if behind > 0:
+            hs.stepTimingAsync(behind)
     d, _ = _run_one(case, acc, ops=case["ops"], verbose=True)
     if d.violation is None:
         return None
